@@ -40,6 +40,9 @@ def explorations(tier):
         ex.append(("api plans n=3, W=1, every pop order", PLAN,
                    [{"n": 3, "edges": e, "output": [0, 1, 2], "W": 1, "sched": "random"} for e in planh.plan_configs(3)],
                    {"preempt": 0}))
+        ex.append(("api plans n=3, only the last call requested (no output gather fanning out of every call), W=1 every pop order / W=2 b<=1", PLAN,
+                   [{"n": 3, "edges": e, "output": 2, "W": w, "sched": sc} for e in planh.plan_configs(3, kinds=("p", "k", "d", "l"))
+                    for w, sc in ((1, "random"), (2, "default"))], {"preempt": 1}))
         ex.append(("api hubs", PLAN, hub_cfgs([1, 2]), {"preempt": 1, "random": 2}))
         ex.append(("api plans n=3 with chains of two surviving literals / literals wired downstream-first, W=1 every pop order / W=2 b<=1", PLAN,
                    [{"n": 3, "edges": e, "output": [0, 1, 2], "W": w, "sched": sc}
